@@ -813,7 +813,15 @@ func (c *Ctx) runRangeSplit(rule string, pkgShort, typeName, method string) {
 			if !ok {
 				continue
 			}
-			if _, isAlloc := ia.X.(*ssa.Alloc); !isAlloc {
+			// a local array (min1[axis] = ...) or an array field of a local
+			// struct (lower.max[axis] = ...)
+			switch base := ia.X.(type) {
+			case *ssa.Alloc:
+			case *ssa.FieldAddr:
+				if _, isAlloc := base.X.(*ssa.Alloc); !isAlloc {
+					continue
+				}
+			default:
 				continue
 			}
 			if _, isConst := ia.Index.(*ssa.Const); isConst {
@@ -836,7 +844,7 @@ func (c *Ctx) runRangeSplit(rule string, pkgShort, typeName, method string) {
 		}
 	}
 	switch {
-	case a.arr == b.arr:
+	case a.arr == b.arr || sameAddr(a.arr, b.arr):
 		c.bad(rule, key, b.st.Pos(), "both bound stores go to the same array: one half keeps the parent's full range")
 	case !sameIdx:
 		c.bad(rule, key, b.st.Pos(), "the two halves are cut on different axes")
